@@ -481,12 +481,31 @@ def _shard_live(shard, seed, tier):
     server.daemon_threads = True
     marker = os.path.join(root, "..", "escaped-live-%d" % os.getpid())
     parent = rig.guard_forked(server, marker)
+    # The accept loop runs in a thread of THIS process and forks its workers from it.  A worker forked while the
+    # client (this thread) is inside OpenSSL inherits OpenSSL's internal locks in the locked state and hangs in its
+    # own handshake -- an artefact of client and server sharing a process.  So the client starts its handshake
+    # only after the fork for its connection has happened (the worker blocks peeking at the first byte anyway).
+    forked = threading.Event()
+    if skind == "fork":
+        orig_pr = server.process_request
+
+        def process_request(request, client_address):
+            try:
+                orig_pr(request, client_address)
+            finally:
+                if os.getpid() == parent:
+                    forked.set()
+
+        server.process_request = process_request
     t = threading.Thread(target=server.serve_forever, kwargs={"poll_interval": 0.02}, daemon=True)
     t.start()
 
     def ask(data, tls):
+        forked.clear()
         s = socket.create_connection(server.server_address, timeout=10)
         try:
+            if skind == "fork":
+                forked.wait(10)
             if tls:
                 c = ssl.SSLContext(ssl.PROTOCOL_TLS_CLIENT)
                 c.check_hostname = False
